@@ -53,7 +53,9 @@ BUILTIN_MODULE = {
     "mpilot.libraries.eems.csv": "mpilot.libraries.eems.csv.io",
     "mpilot.libraries.eems.netcdf": "mpilot.libraries.eems.netcdf.io",
 }
-GEN_LIBS = ["lib", "lib_extra", "libx", "lib.sub", "lib_sub", "libxsub", "other", "li"]
+GEN_LIBS = ["lib", "lib_extra", "libx", "lib.sub", "lib_sub", "libxsub", "other", "li", "pk", "pk.inner", "pk.inner.deep"]
+# these packages define their commands in their own __init__ module: asking for one of their sub-packages does not ask for them
+INIT_LIBS = ("pk", "pk.inner")
 CMD_NAMES = ["Foo", "Bar", "Baz", "Qux"]
 ELSEWHERE = ["elsewhere", "lib_other", "libz", "l", "tests_helpers", "mpilot.libraries.eems.basic_extra"]
 
@@ -68,7 +70,9 @@ def write_libs(root, libs):
             init = os.path.join(root, *parts[:k], "__init__.py")
             if not os.path.exists(init):
                 open(init, "w").close()
-        with open(os.path.join(d, "cmds.py"), "w") as f:
+        # a library whose name is written with a leading "@" in the case keeps its commands in the package's own
+        # __init__ module instead of a sub-module (the key used everywhere else is the plain name)
+        with open(os.path.join(d, "__init__.py" if lib in INIT_LIBS else "cmds.py"), "w") as f:
             f.write("from mpilot.commands import Command\nfrom mpilot import params\n\n")
             for k, n in enumerate(names):
                 # every second command is registered under an explicit `name` that differs from its class name
@@ -81,7 +85,7 @@ def module_commands(libs):
     """module name -> command names, for generated and built-in libraries."""
     out = {}
     for lib, names in libs.items():
-        out[lib + ".cmds"] = list(names)
+        out[lib if lib in INIT_LIBS else lib + ".cmds"] = list(names)
     for lib, names in BUILTIN.items():
         out[BUILTIN_MODULE[lib]] = list(names)
     return out
@@ -165,7 +169,7 @@ class Runner(object):
         if self.root in sys.path:
             sys.path.remove(self.root)
         for m in set(sys.modules) - self.mods_before:
-            if m.split(".")[0] in ("lib", "lib_extra", "libx", "lib_sub", "libxsub", "other", "li"):
+            if m.split(".")[0] in set(l.split(".")[0] for l in GEN_LIBS):
                 del sys.modules[m]
         CommandMeta._commands.clear()
         CommandMeta._commands.update(self.snap)
@@ -186,7 +190,7 @@ class Runner(object):
             earlier.append("define:" + module)
             return []
         if op == "import":
-            importlib.import_module(step[1] + ".cmds")
+            importlib.import_module(step[1] if step[1] in INIT_LIBS else step[1] + ".cmds")
             earlier.append("import:" + step[1])
             return []
         requested = step[1]  # may be empty: a program that asks for no library has no commands at all
